@@ -6,6 +6,7 @@ import (
 	"math"
 	"sort"
 	"strings"
+	"sync"
 
 	"diagonal.works/b6"
 	"diagonal.works/b6/api"
@@ -516,7 +517,7 @@ func init() {
 		// about 1.4 ms of CPU per case (YAML and 20 shell parses): 50 000 cases are
 		// ~5 s and 3 000 000 ~5 min on 16 idle cores
 		Quick: 50000, Thorough: 3000000,
-		Required: []string{"string", "json", "yaml", "proto", "shell_lexer", "shell_alias_n", "shell_alias_w", "shell_alias_a", "shell_alias_r", "shell_alias_uprn", "shell_alias_codepoint", "shell_alias_ons",
+		Required: []string{"concurrent_encoders", "string", "json", "yaml", "proto", "shell_lexer", "shell_alias_n", "shell_alias_w", "shell_alias_a", "shell_alias_r", "shell_alias_uprn", "shell_alias_codepoint", "shell_alias_ons",
 			"code_codepoint", "code_ons", "yaml_nested", "less_pairs", "less_triples", "compact_pairs", "compact_sorts", "ids_namespace_with_slash", "ids_hostile_namespace", "sub_invalid-ids_ok", "ordered_same_type_and_namespace", "ordered_across_types", "ordered_across_namespaces"},
 		Run: c31run,
 	})
@@ -595,6 +596,50 @@ func c31run(c *core.Ctx) {
 	}
 	if failed {
 		return
+	}
+	// the encoders are called from request handlers, tile renderers and builders at
+	// once: several goroutines print and read back ids that share a type and a
+	// namespace (different, short values), each checking only its own results
+	if c.Index%8 == 3 && g.sub == "" && ids[0].IsValid() && c31class(ids[0]) == "generic" {
+		const goroutines, rounds = 4, 300
+		var wg sync.WaitGroup
+		bad := make([]string, goroutines)
+		for gi := 0; gi < goroutines; gi++ {
+			wg.Add(1)
+			go func(gi int) {
+				defer wg.Done()
+				defer func() {
+					if e := recover(); e != nil {
+						bad[gi] = fmt.Sprintf("panic: %v", e)
+					}
+				}()
+				id := ids[0]
+				for k := 0; k < rounds && bad[gi] == ""; k++ {
+					id.Value = uint64(gi*1000+k) % 100000
+					text := id.String()
+					if back := b6.FeatureIDFromString(text); back != id {
+						bad[gi] = fmt.Sprintf("%#v printed as %q, which reads back as %#v", id, text, back)
+					}
+					if j, err := json.Marshal(id); err != nil {
+						bad[gi] = fmt.Sprintf("%#v: MarshalJSON: %v", id, err)
+					} else {
+						var back b6.FeatureID
+						if err := json.Unmarshal(j, &back); err != nil || back != id {
+							bad[gi] = fmt.Sprintf("%#v marshalled as %s, which reads back as %#v (%v)", id, j, back, err)
+						}
+					}
+				}
+			}(gi)
+		}
+		wg.Wait()
+		c.Count("concurrent_encoders")
+		for _, b := range bad {
+			if b != "" {
+				c.Violate("concurrent:string:"+c31class(ids[0]), map[string]any{"type_and_namespace": fmt.Sprintf("%d/%q", ids[0].Type, ids[0].Namespace)},
+					"with %d goroutines encoding ids of one type and namespace at once: %s", goroutines, b)
+				return
+			}
+		}
 	}
 	for k, n := range counts {
 		c.Add(k, n)
